@@ -1,5 +1,5 @@
 (* ops_composite.ml -- model side of harness/drv_composite.cpp (C18): the extracted
-   Composite.v formulas with exact inner solvers passed as function arguments.  The inner
+   Composite.v / Cpr.v formulas with exact inner solvers passed as function arguments.  The inner
    solvers are dense eliminations written here (untrusted): every result is verified against
    the extracted specification (mv / Ax) before it is used. *)
 open Io
@@ -102,6 +102,15 @@ let dense_rows n (f : Obj.t list -> Obj.t list) =
 let mulv (m : Crs.crs) x = List.init (nrows m) (fun i -> KernelsProofs.coq_Ax sc m x i)
 let rows_of_dense (m : Crs.crs) = List.map (fun r -> List.map snd r) m.Crs.rows
 
+(* the pressure stage: exact solve with the matrix the set-up hands to PPrecond; an ill-formed
+   matrix (column index out of range) is reported like harness/drv_composite.cpp does *)
+let cpr_pp (app : Crs.crs) =
+  exact_inverse_of ~what:"singular_pressure_matrix" (nrows app) (fun v -> C.mv sc app v)
+let show_ops n kmat (ops : Cpr.cpr_ops) sp =
+  let app = ops.Cpr.c_app in
+  if not (Crs.wf sc app) || nrows app <> app.Crs.ncols then raise (Model_exc "runtime_error pressure_matrix_column_out_of_range");
+  dense_rows n (Cpr.cpr_operator sc kmat ops sp cpr_pp)
+
 let () =
   reg "schur" (fun t -> let typ = t_i t in let adj = t_i t in let approx = t_i t in let simplec = t_i t in
     let spec = t_s t in let k = t_crs t in
@@ -151,15 +160,18 @@ let () =
     let yu = C.vadd sc (C.mv sc (blk false false) xu) (C.mv sc (blk false true) xp) in
     let yp = C.vadd sc (C.mv sc (blk true false) xu) (C.mv sc (blk true true) xp) in
     ok_of [ "K x = scatter(blocks)", veq (mulv k x) (C.scatter_up sc mask yu yp) ]);
-  (* CPR: x = S f + Scatter P (Fpp (f - A S f)); App = first-row-of-inverse-diagonal-block weighting *)
-  reg "o.cpr" (fun t -> let kind = t_s t in let b = t_i t in let k = t_crs t in let m = t_crs t in let app = t_crs t in
-    let n = nrows k in let np = n / b in
+  (* CPR: x = S f + Scatter P (Fpp (f - A S f)); App = first-row-of-inverse-diagonal-block weighting
+     of the active part (rows/columns < N = active_rows or n) *)
+  reg "o.cpr" (fun t -> let kind = t_s t in let b = t_i t in let active = t_i t in
+    let k = t_crs t in let m = t_crs t in let app = t_crs t in
+    let n = nrows k in let nn = if active = 0 then n else active in let np = nn / b in
     let get i j = Crs.mget sc k i j in
     (* w_ip : row vector with w D_ip = e_0^T, i.e. D^T w = e_0 *)
     let w = Array.init np (fun ip ->
         let dt = Array.init b (fun r -> Array.init b (fun c -> get (ip * b + c) (ip * b + r))) in
         match dense_solve dt (Array.init b (fun r -> if r = 0 then s1 else s0)) with
         | Some x -> Array.of_list x | None -> raise (Model_exc "runtime_error singular")) in
+    let shape_ok = nrows app = np && app.Crs.ncols = np in
     let app_ok = List.for_all (fun ip -> List.for_all (fun jp ->
         let v = ref s0 in for i = 0 to b - 1 do v := !v +: (w.(ip).(i) *: get (ip * b + i) (jp * b)) done;
         qeq !v (Crs.mget sc app ip jp)) (List.init np (fun j -> j))) (List.init np (fun i -> i)) in
@@ -176,22 +188,72 @@ let () =
         let d = List.map2 (fun a c -> a -: c) x s in
         let da = Array.of_list d in
         let xp = List.init np (fun ip -> da.(ip * b)) in
-        let others_zero = List.for_all (fun q -> q mod b = 0 || is0 da.(q)) (List.init n (fun q -> q)) in
+        let others_zero = List.for_all (fun q -> (q < np * b && q mod b = 0) || is0 da.(q)) (List.init n (fun q -> q)) in
         others_zero && veq (mulv app xp) rp) (List.init n (fun i -> i)) (rows_of_dense m) in
-    ok_of [ "App = W K (first row of inverse diagonal block)", app_ok;
+    ok_of [ "App is np x np", shape_ok;
+            "App = W K (first row of inverse diagonal block)", app_ok;
             "x = S f + Scatter App^-1 Fpp (f - A S f)", formula_ok ]);
+  (* the returned vector solves the ORIGINAL system *)
+  reg "o.solves" (fun t -> let m = t_crs t in let f = t_vec t in let x = t_vec t in
+    ok_of [ "Ax=f", veq (mulv m x) f ]);
   (* deflation: after project, Z^T (b - A x) = 0 *)
   reg "o.deflate" (fun t -> let a = t_crs t in let nv = t_i t in let z = List.init nv (fun _ -> t_vec t) in
     let b = t_vec t in let x = t_vec t in
     let r = List.map2 (fun bi axi -> bi -: axi) b (mulv a x) in
     ok_of (List.mapi (fun i zi -> ("z_" ^ string_of_int i ^ "^T (b - A x) = 0", is0 (C.dotv sc zi r))) z));
-  (* the model's projection (with a verified inverse of E) equals the implementation's *)
+  (* the model's init() (E = Z^T A Z, detail::inverse as modelled in Inverse.v and proved exact
+     in InverseExact.v) followed by project() / apply() *)
   reg "deflate" (fun t -> let what = t_s t in let a = t_crs t in let nv = t_i t in let z = List.init nv (fun _ -> t_vec t) in
     let b = t_vec t in let x = t_vec t in
-    if what <> "project" then "UNMODELLED" else
-    let e = C.deflate_E sc a z in
-    let ea = Array.of_list (List.map Array.of_list e) in
-    let einv_cols = List.init nv (fun j -> match dense_solve ea (Array.of_list (unit nv j)) with
-        | Some c -> c | None -> raise (Model_exc "runtime_error singular")) in
-    let einv = List.init nv (fun i -> List.map (fun c -> List.nth c i) einv_cols) in
-    show_vec (C.deflate_project sc a z einv b x))
+    let n = nrows a in
+    match CompositeProofs5.deflate_init sc a z (zeros (nv * nv)) with
+    | None -> raise (Model_exc "assert")
+    | Some einv ->
+      (match what with
+       | "project" -> show_vec (C.deflate_project sc a z einv b x)
+       | "apply" -> let mm = Relax.spai0_setup sc a in
+         show_vec (CompositeProofs4.deflated_precond sc a z einv (fun r -> Relax.spai0_apply sc mm r (zeros n)) b)
+       | _ -> "UNMODELLED"));
+
+  (* ---- CPR: the extracted set-up (Cpr.v) + Composite.cpr_apply; the pressure stage is an exact
+     solve with the model's App (verified), the global stage dummy or spai0 (built from the
+     sorted copy of K, like the residual) ---- *)
+  reg "cpr" (fun t -> let kind = t_s t in let bs = t_i t in let active = t_i t in let k = t_crs t in
+    let n = nrows k in
+    let junk = zeros (n + bs) in
+    let ks = MatOps.sort_rows sc k in
+    match kind with
+    | "scalar_dummy" ->
+      let ops = Cpr.cpr_make sc bs active k junk in
+      show_ops n ks ops (fun f -> f) ^ " " ^ show_crs ~sorted:true ops.Cpr.c_app
+    | "scalar_spai0" ->
+      let ops = Cpr.cpr_make sc bs active k junk in
+      let mm = Relax.spai0_setup sc ks in
+      show_ops n ks ops (fun f -> Relax.spai0_apply sc mm f (zeros n)) ^ " " ^ show_crs ~sorted:true ops.Cpr.c_app
+    | "block_dummy" ->
+      let kb = A.to_gcrs (A.block_adapter sc bs (A.crs_view sc k)) in
+      let ops = Cpr.cprb_make sc bs (active / bs) kb junk in
+      show_ops n (A.unblock sc bs kb) ops (fun f -> f) ^ " " ^ show_crs ~sorted:true ops.Cpr.c_app
+    | "update_dummy" ->
+      let ops = Cpr.cpr_make sc bs active k junk in
+      let before = show_ops n ks ops (fun f -> f) in
+      let ops' = Cpr.cpr_partial_update sc bs active ops k true junk in
+      let after = show_ops n ks ops' (fun f -> f) in
+      (if before = after then "same " else "changed ") ^ after
+    | _ -> raise (Model_exc "invalid_argument"));
+
+  (* ---- CPR-DRS: CprDrs.v set-up; update: first_scalar_pass(K, get_app = false) dereferences the
+     null App pointer (cpr_drs.hpp:331) -- no model value *)
+  reg "cprdrs" (fun t -> let kind = t_s t in let bs = t_i t in let active = t_i t in
+    let eps_dd = t_q t in let eps_ps = t_q t in let w = t_vec t in let k = t_crs t in
+    let n = nrows k in
+    match kind with
+    | "scalar" ->
+      let ops = CprDrs.drs_make sc bs active k eps_dd eps_ps w in
+      show_ops n (MatOps.sort_rows sc k) ops (fun f -> f) ^ " " ^ show_crs ~sorted:true ops.Cpr.c_app
+    | "block" ->
+      let kb0 = A.to_gcrs (A.block_adapter sc bs (A.crs_view sc k)) in
+      let ops = CprDrs.drsb_make sc bs (active / bs) kb0 eps_dd eps_ps w in
+      show_ops n (A.unblock sc bs kb0) ops (fun f -> f) ^ " " ^ show_crs ~sorted:true ops.Cpr.c_app
+    | "update" -> "CRASH null_App"
+    | _ -> raise (Model_exc "invalid_argument"))
